@@ -275,6 +275,8 @@ impl BCaseSpec {
         } else {
             o.push_str("    #[ghost({ 66 })] c: i32,\n");
         }
+        // a second S-only leaf always has its own default: `..update` must not replace it (seed C08-04)
+        o.push_str("    #[ghost({ 67 })] d: i32,\n");
         if self.parent {
             o.push_str("    #[parent] p: P,\n");
         }
@@ -293,7 +295,7 @@ impl BCaseSpec {
         let pw = if self.parent { ", w: 9" } else { "" };
         let _ = writeln!(o, "fn tbase() -> T {{ T {{ a: 801, b: 802, u: 803, g: 805{pw} }} }}\nfn tfbase() -> Tf {{ Tf {{ a: 801, b: 802, u: 803, g: 805{pw} }} }}");
         let sp = if self.parent { ", p: P { w: 9 }" } else { "" };
-        let _ = writeln!(o, "fn sbase() -> S {{ S {{ a: 701, b: 702, c: 703{sp} }} }}\nfn make_s(m: i32) -> S {{ S {{ a: m, b: m + 1, c: m + 2{sp} }} }}");
+        let _ = writeln!(o, "fn sbase() -> S {{ S {{ a: 701, b: 702, c: 703, d: 704{sp} }} }}\nfn make_s(m: i32) -> S {{ S {{ a: m, b: m + 1, c: m + 2, d: m + 3{sp} }} }}");
         let _ = writeln!(o, "fn make_t(m: i32) -> T {{ T {{ a: m, b: m + 1, u: m + 2, g: m + 3{pw} }} }}\nfn make_tf(m: i32) -> Tf {{ Tf {{ a: m, b: m + 1, u: m + 2, g: m + 3{pw} }} }}");
         let _ = writeln!(o, "{d}\n#[derive(o2o::o2o)]\n{}", self.item_text());
         let _ = writeln!(o, "pub fn run(r: &mut Rec) {{");
@@ -309,8 +311,8 @@ impl BCaseSpec {
                 let a = if vars { 10 + 5 + 6 } else { 10 };
                 let (exp, log): (String, Vec<i64>) = match term {
                     2 => (format!("make_s(31)"), if vars { vec![1, 2] } else { vec![] }),
-                    1 => (format!("S {{ a: {a}, b: 20, c: 703{spv} }}"), if vars { vec![1, 2, 11] } else { vec![] }),
-                    _ => (format!("S {{ a: {a}, b: 20, c: 66{spv} }}"), if vars { vec![1, 2, 11] } else { vec![] }),
+                    1 => (format!("S {{ a: {a}, b: 20, c: 703, d: 67{spv} }}"), if vars { vec![1, 2, 11] } else { vec![] }),
+                    _ => (format!("S {{ a: {a}, b: 20, c: 66, d: 67{spv} }}"), if vars { vec![1, 2, 11] } else { vec![] }),
                 };
                 let exp = if term == 2 { exp } else { exp };
                 for (lbl, call) in [("from_owned", if fallible { format!("<S as TryFrom<{cp}>>::try_from(t.clone())") } else { format!("<S as From<{cp}>>::from(t.clone())") }), ("from_ref", if fallible { format!("<S as TryFrom<&{cp}>>::try_from(&t)") } else { format!("<S as From<&{cp}>>::from(&t)") })] {
@@ -320,7 +322,7 @@ impl BCaseSpec {
             // ---- Into
             {
                 let (vars, term) = self.groups[1];
-                let sv = format!("S {{ a: 1, b: 2, c: 3{spv} }}");
+                let sv = format!("S {{ a: 1, b: 2, c: 3, d: 4{spv} }}");
                 let a = if vars { 1 + 5 + 6 } else { 1 };
                 let (exp, log): (String, Vec<i64>) = match term {
                     2 => (format!("make_{}(32)", cp.to_lowercase()), if vars { vec![1, 2] } else { vec![] }),
@@ -334,7 +336,7 @@ impl BCaseSpec {
             // ---- IntoExisting
             {
                 let (vars, term) = self.groups[2];
-                let sv = format!("S {{ a: 1, b: 2, c: 3{spv} }}");
+                let sv = format!("S {{ a: 1, b: 2, c: 3, d: 4{spv} }}");
                 let a = if vars { 1 + 5 + 6 } else { 1 };
                 let prew = if self.parent { ", w: 904" } else { "" };
                 let pre = format!("{cp} {{ a: 901, b: 902, u: 903, g: 905{prew} }}");
